@@ -92,8 +92,11 @@ PROPS["C02"] = {
             "bit (for tickets: the store key read) is compared with the model; non-trivial = every altered credential",
     "assumptions": ["HMAC-SHA256 modelled as a function (table of true MACs); AES-CFB/GCM, msgpack and lz4 are not modelled: the model "
                     "decides acceptance up to signature validation, the oracle compares the decoded session with the issued one",
-                    "opaqueness (last sentence of the property) is not a theorem: it is checked by a leak scan of cookie values and store "
-                    "entries (raw, base64- and hex-decoded views) and by trying to open store entries with key material found in the store"],
+                    "opaqueness (last sentence of the property): c02_cookie_opaque / c02_store_entry_opaque / "
+                    "c02_ticket_cookie_has_no_session_field are theorems of the symbolic (Dolev-Yao) model Model/Symbolic.v, in which "
+                    "encryption, MAC and hash are perfect by construction; that the real bytes have this shape is checked by decoding issued "
+                    "credentials with the real keys, by a leak scan of cookie values and store entries (raw, base64- and hex-decoded views) "
+                    "and by trying to open store entries with key material found in the store"],
     "trusted_base": ["Go's crypto/hmac, crypto/aes, crypto/cipher used by the driver to build the oracle tables"],
     "level_text": "c02_accepted_has_valid_mac (for every presented string: accepted => field 3 decodes to the MAC of name++field1++field2), "
                   "c02_accepted_alteration_is_issued, c02_mac_input_ambiguity (full characterisation of the unseparated-concatenation "
@@ -101,8 +104,9 @@ PROPS["C02"] = {
                   "and c02_ticket_session_from_store (store touched only for a validated ticket) are proved for all inputs of the Gallina "
                   "model of Validate / loadCookie / decodeTicketFromRequest / Manager.Load; acceptance is compared with the real stores on "
                   "systematic alterations of issued credentials on every run.",
-    "level_note": "_partial: confidentiality (opaqueness) rests on AES, which is modelled, and is checked by leak scans only; 'nothing the proxy "
-                  "did not produce is accepted' is proved up to MAC unforgeability (stated as the MAC-validity conclusion of the theorem).",
+    "level_note": "_partial: confidentiality (opaqueness) is proved in the symbolic model only (perfect cryptography; AES-CFB/GCM are not "
+                  "analysed) and supported by leak scans; 'nothing the proxy did not produce is accepted' is proved up to MAC unforgeability "
+                  "(stated as the MAC-validity conclusion of the theorem).",
 }
 
 PROPS["C18"] = {
@@ -319,9 +323,12 @@ PROPS["C05"] = {
     "level_text": "c05_nonce, c05_missing_nonce, c05_raw_nonce (validation with nonce checking passes only if the ID token's nonce claim equals "
                   "the hash of this login's stored nonce; absent/null/empty/raw values fail), c05_verifier_shape (128 unreserved characters "
                   "from the regenerated 96 random bytes, within RFC 7636's 43..128), c05_verifier_fresh (injective in the randomness), "
-                  "c05_challenge are proved on the Gallina models; nonce acceptance is compared with the real callback on every run.",
-    "level_note": "_partial: secrecy of raw nonces / verifier (last sentence) is checked by a leak scan of everything sent to the browser, not "
-                  "by a theorem.",
+                  "c05_challenge are proved on the Gallina models; c05_secrecy / c05_secrecy_plain / c05_plain_discloses_verifier (an "
+                  "observer of the CSRF cookie and the authorization request who lacks the cookie secret learns no raw nonce and, unless the "
+                  "method is plain, not the verifier) are proved in the symbolic (Dolev-Yao) model; nonce acceptance and the way each secret is "
+                  "wrapped in the real authorization request (absent / clear / hashed) are compared with the models on every run.",
+    "level_note": "_partial: the secrecy theorems hold in the symbolic model (perfect hash / encryption by construction); the leak scan of "
+                  "everything sent to the browser supports them on the real bytes.",
 }
 PROPS["C14"] = {
     "drivers": [dict(MAIN, timeout=3000)],
